@@ -609,18 +609,25 @@ func Generate(r *rand.Rand, profile string, concurrent bool, av Avoid) *Plan {
 	// of channels - maxSize 33-70, watermark 1: every held call saturates the
 	// pool, one channel is added, comes up, takes the next call. Size bound and
 	// least-loaded placement must hold at 9, 17, 33, 65 channels as at 3.
-	if profile == "growth" && !concurrent && !p.Cfg.RR && r.IntN(25) == 0 && len(p.Ops) > 4 {
+	if profile == "growth" && !concurrent && !p.Cfg.RR && r.IntN(40) == 0 && len(p.Ops) > 4 {
 		p.Cfg.Min, p.Cfg.WM = 1, 1
 		p.Cfg.Max = uint32(33 + r.IntN(38))
+		if r.IntN(8) == 0 {
+			p.Cfg.Max = uint32(257 + r.IntN(40)) // beyond a byte-sized index / a 256-entry window
+		}
 		frag := []Op{{K: OpConn, A: 0, B: ConnProgress}, {K: OpConn, A: 0, B: ConnProgress}}
-		n := int(p.Cfg.Max) + 2
+		n := 2*int(p.Cfg.Max) + 2 // every other call finds the pool saturated, adds a channel and waits
+		if r.IntN(2) == 0 {
+			n -= 24 // stop a dozen channels short of maxSize: growth stays possible
+		}
 		for c := 0; c < n; c++ {
 			// held call; when it saturates the pool it is told to wait and a channel is
 			// created: bring that one up and place one call there
 			frag = append(frag, Op{K: OpPick, B: MPlain}, Op{K: OpConn, A: -1, B: ConnProgress}, Op{K: OpConn, A: -1, B: ConnProgress})
 		}
-		for c := 0; c < 4; c++ {
-			frag = append(frag, Op{K: OpDone, A: r.IntN(8), B: OutOK}, Op{K: OpPick, B: MPlain})
+		for c := 0; c < 12; c++ {
+			// one call completes somewhere in the pool: the next one belongs there
+			frag = append(frag, Op{K: OpDone, A: r.IntN(n), B: OutOK}, Op{K: OpPick, B: MPlain})
 		}
 		at := 1 + r.IntN(2)
 		ops := append([]Op{}, p.Ops[:at]...)
@@ -709,7 +716,20 @@ func Generate(r *rand.Rand, profile string, concurrent bool, av Avoid) *Plan {
 		}
 		r.Shuffle(len(tail), func(a, b int) { tail[a], tail[b] = tail[b], tail[a] })
 		frag = append(frag, tail...)
-		frag = append(frag, Op{K: OpSteps, A: 30}, Op{K: OpConn, A: -1, B: ConnProgress, N: st()}, Op{K: OpConn, A: -1, B: ConnProgress, N: st()}, Op{K: OpSteps, A: 40})
+		if r.IntN(2) == 0 {
+			// an UNBIND for the key completes while the replacement's READY report
+			// (the takeover, which re-points the channel's keys) is delivered
+			frag = append(frag, Op{K: OpSteps, A: 30}, Op{K: OpConn, A: -1, B: ConnProgress, N: 30},
+				Op{K: OpPick, B: MUnbind, Keys: []int{k}, N: 30})
+			end := []Op{{K: OpDone, A: -1, B: OutOK, Keys: []int{k}, N: st()}, {K: OpConn, A: -1, B: ConnProgress, N: st()}}
+			if r.IntN(2) == 0 {
+				end[0], end[1] = end[1], end[0]
+			}
+			frag = append(frag, end...)
+			frag = append(frag, Op{K: OpSteps, A: 40})
+		} else {
+			frag = append(frag, Op{K: OpSteps, A: 30}, Op{K: OpConn, A: -1, B: ConnProgress, N: st()}, Op{K: OpConn, A: -1, B: ConnProgress, N: st()}, Op{K: OpSteps, A: 40})
+		}
 		at := 3 + r.IntN(len(p.Ops)-3)
 		ops := append([]Op{}, p.Ops[:at]...)
 		ops = append(ops, frag...)
